@@ -2696,6 +2696,17 @@ def _mk_iflet(pat, scr, then, els):
         pred = _apply(scr[2][1], el)
         hit = ("proj", scr, pat.split("(")[0], "0")
         return ("call", "search", [base, pred, rewrite(then, lambda n: el if n == hit else None), els])
+    if scr[0] == "call" and scr[1] == "Iterator::position" and len(scr[2]) == 2 and scr[2][1][0] == "closure" and scr[2][1][2] == 1 \
+            and pat.startswith(("v1::Some(", "Option::Some(")):
+        # if let Some(i) = xs.iter().position(p) { ..xs[i].. } else { m }   ==   the same search by `find`: the hit is the element
+        base, el = _elem_of(scr[2][0])
+        if el == ("elem", base):
+            pred = _apply(scr[2][1], el)
+            pos = ("proj", scr, pat.split("(")[0], "0")
+            at = ("index", base, pos)
+            hit = rewrite(then, lambda n: el if n == at else None)
+            if not any(x == pos for x in subterms(hit)):
+                return ("call", "search", [base, pred, hit, els])
     # if let Some(x) = X { Ok(x) } else { Err(e) }   ==   X.ok_or(e)
     if pat in ("v1::Some($)", "Option::Some($)") and then[0] == "call" and then[1] == "Ok" and len(then[2]) == 1 \
             and _show(then[2][0]) == _show(("proj", scr, pat.split("(")[0], "0")) and els[0] == "call" and els[1] == "Err" and len(els[2]) == 1:
